@@ -289,6 +289,7 @@ def run(repo: Repo) -> Result:
             res.add("C25-SELECT", f.qual, f"{name}:index", f"`{name}` must select `getitem({p0}, {idx})`; found {[text(c)[:40] for c in gi]}", f.file, f.line)
 
     # ---- C25-DEFAULT ---------------------------------------------------------------------
+    from ..astutil import local_names as _local_names
     from ..kinds import feasible, path_states
 
     df = impl("default").func
@@ -296,7 +297,7 @@ def run(repo: Repo) -> Result:
     obj, dflt = dps[0], dps[1]
     exits = {id(n.value): n for n in walk_no_nested(df.node) if isinstance(n, ast.Return) and n.value is not None}
     res.ob(f"default:{df.qual}", 2)
-    hits = [(n, st, fl) for n, st, fl in path_states(df.node, {obj: frozenset("N")}, lambda n: id(n) in exits) if feasible(fl, st, [obj] + [v for v in ("_obj",) if v in {x.id for x in ast.walk(df.node) if isinstance(x, ast.Name)}])]
+    hits = [(n, st, fl) for n, st, fl in path_states(df.node, {obj: frozenset("N")}, lambda n: id(n) in exits) if feasible(fl, st, [obj] + sorted(_local_names(df.node)))]
     if not hits:
         raise AnchorMissing(f"{df.qual}: no exit reachable with a nil left value; re-derive C25-DEFAULT")
     bad = sorted({(exits[id(n)].lineno, text(exits[id(n)])) for n, st, fl in hits if not is_name(exits[id(n)].value, dflt)})
